@@ -370,7 +370,11 @@ func eGenOpts(r *rand.Rand, n int, cmds []database.Command) eOpts {
 	case 0:
 		o.AllPlatforms = true
 	case 1:
-		o.Platforms = intsList([][]string{{"windows"}, {"macos"}, {"linux"}, {"windows", "macos"}, {"Windows"}, {"darwin"}, {"powershell"}}[r.Intn(7)])
+		k := r.Intn(7)
+		o.Platforms = intsList([][]string{{"windows"}, {"macos"}, {"linux"}, {"windows", "macos"}, {"Windows"}, {"darwin"}, {"powershell"}}[k])
+		if n%3 == 1 { // names that are not a platform of the vocabulary: empty (a trailing comma on the command line), beginnings of names, unknown ones
+			o.Platforms = intsList([][]string{{"linux", ""}, {""}, {"win"}, {"mac"}, {"l"}, {"lin", "windows"}, {"bsd"}}[k])
+		}
 	case 2:
 		o.Platforms = intsList([][]string{{"windows"}, {"linux"}}[r.Intn(2)])
 		o.NoCross = true
